@@ -391,7 +391,7 @@ fn check(c: &Case, shown: &str, ctx: &mut Context, double_rounding: &mut bool) -
     if !d_int.is_zero() && dec.neg != xneg {
         return Err(("value", format!("{:?} displayed as {:?}: wrong sign", x, shown)));
     }
-    let n = c.sig as i32;
+    let n = c.sig.max(1) as i32; // a setting of 0 means 1: no value can be shown with no digit
     // p = floor(log10 |x|), exactly
     let mut p = x.abs().log10().floor() as i32;
     loop {
@@ -546,7 +546,8 @@ fn gen_settings(rng: &mut Rng) -> (String, usize, usize) {
     let sep = rng.pick(SEPS).to_string();
     let th = *rng.pick(THRESHOLDS);
     let sig = match rng.below(10) {
-        0 => 1,
+        // the setting 0 is read as 1 (number.rs clamps it; seed C14-F): one case in twenty
+        0 => if rng.chance(1, 2) { 0 } else { 1 },
         1 => 17,
         2 | 3 => 6,
         _ => 1 + rng.below(17),
